@@ -116,7 +116,7 @@ func (cc *chainCase) crashPoint(e *chainOp, k, tornAt int) {
 	}
 	tornKey := "C08/chain-torn-" + e.kind
 	c.R.Count("crash_points", 1)
-	if (k > 0 && k < total) || tornAt > 0 {
+	if ((k > 0 && k < total) || tornAt > 0) && e.nkeys >= 2 {
 		c.NonTrivial()
 		suffix := ""
 		if tornAt > 0 {
